@@ -349,11 +349,7 @@ macro_rules! h_hstack {
         }
     };
 }
-h_hstack!(c20_na_h_stack_1x1_1x1, 1, 1, Lay::Std, 1, Lay::Std, 20);
-h_hstack!(c20_na_h_stack_2x2_2x1, 2, 2, Lay::Std, 1, Lay::Std, 20);
-h_hstack!(c20_na_h_stack_2x2_tr_2x1, 2, 2, Lay::Tr, 1, Lay::Std, 20);
-h_hstack!(c20_na_h_stack_2x1_2x2_tr, 2, 1, Lay::Std, 2, Lay::Tr, 20);
-h_hstack!(c20_na_h_stack_3x1_tr_3x1_tr, 3, 1, Lay::Tr, 1, Lay::Tr, 20);
+// (h_stack / v_stack instances omitted for nalgebra: CBMC runs out of 20 GB already at 1x1 | 1x1; see property.json not_decided)
 
 macro_rules! h_vstack {
     ($name:ident, $c:expr, $r1:expr, $tr1:expr, $r2:expr, $tr2:expr, $unw:expr) => {
@@ -382,11 +378,6 @@ macro_rules! h_vstack {
         }
     };
 }
-h_vstack!(c20_na_v_stack_1x1_1x1, 1, 1, Lay::Std, 1, Lay::Std, 20);
-h_vstack!(c20_na_v_stack_2x2_1x2, 2, 2, Lay::Std, 1, Lay::Std, 20);
-h_vstack!(c20_na_v_stack_2x2_tr_1x2, 2, 2, Lay::Tr, 1, Lay::Std, 20);
-h_vstack!(c20_na_v_stack_1x2_2x2_tr, 2, 1, Lay::Std, 2, Lay::Tr, 20);
-h_vstack!(c20_na_v_stack_1x3_tr_1x3_tr, 3, 1, Lay::Tr, 1, Lay::Tr, 20);
 
 // ---------------------------------------------------------------------------------------------- take (default trait method over zeros/get/set)
 macro_rules! h_take {
@@ -412,7 +403,7 @@ macro_rules! h_take {
         }
     };
 }
-h_take!(c20_na_take_rows_2x3_std, 2, 3, Lay::Std, [1usize, 0, 1], 0, 3, 3, 8);
+h_take!(c20_na_take_rows_2x3_std, 2, 3, Lay::Std, [1usize, 0, 1], 0, 3, 3, 12);
 h_take!(c20_na_take_rows_2x3_tr, 2, 3, Lay::Tr, [1usize, 1], 0, 2, 3, 8);
 h_take!(c20_na_take_cols_2x3_std, 2, 3, Lay::Std, [2usize, 0], 1, 2, 2, 8);
 h_take!(c20_na_take_cols_2x3_tr, 2, 3, Lay::Tr, [2usize, 0, 2, 1], 1, 2, 4, 8);
@@ -438,7 +429,7 @@ macro_rules! h_eye {
 }
 h_eye!(c20_na_eye_1, 1, 6);
 h_eye!(c20_na_eye_2, 2, 6);
-h_eye!(c20_na_eye_3, 3, 8);
+h_eye!(c20_na_eye_3, 3, 12);
 
 macro_rules! h_fill {
     ($name:ident, $r:expr, $c:expr, $unw:expr) => {
@@ -727,8 +718,6 @@ h_rejects!(c20_na_ref_rejects_add_mut_2x3_1x1, Dm, add_mut, 2, 3, 1, 1, 20);
 h_rejects!(c20_na_ref_rejects_copy_from_2x3_1x3, Dm, copy_from, 2, 3, 1, 3, 20);
 h_rejects!(c20_na_ref_rejects_copy_from_2x3_3x2, Dm, copy_from, 2, 3, 3, 2, 20);
 h_rejects!(c20_na_ref_rejects_copy_from_2x3_1x1, Dm, copy_from, 2, 3, 1, 1, 20);
-h_rejects!(c20_na_ref_rejects_h_stack_2x2_1x2, Dm, h_stack, 2, 2, 1, 2, 20);
-h_rejects!(c20_na_ref_rejects_v_stack_2x2_2x1, Dm, v_stack, 2, 2, 2, 1, 20);
 h_rejects!(c20_na_ref_rejects_reshape_2x3_to_2x2, Dm, reshape, 2, 3, 2, 2, 20);
 h_rejects!(c20_na_ref_rejects_reshape_2x3_to_4x2, Dm, reshape, 2, 3, 4, 2, 20);
 h_rejects!(c20_na_rejects_add_mut_2x3_1x3, Bk, add_mut, 2, 3, 1, 3, 20);
@@ -737,42 +726,6 @@ h_rejects!(c20_na_rejects_add_mut_2x3_1x1, Bk, add_mut, 2, 3, 1, 1, 20);
 h_rejects!(c20_na_rejects_copy_from_2x3_1x3, Bk, copy_from, 2, 3, 1, 3, 20);
 h_rejects!(c20_na_rejects_copy_from_2x3_3x2, Bk, copy_from, 2, 3, 3, 2, 20);
 h_rejects!(c20_na_rejects_copy_from_2x3_1x1, Bk, copy_from, 2, 3, 1, 1, 20);
-h_rejects!(c20_na_rejects_h_stack_2x2_1x2, Bk, h_stack, 2, 2, 1, 2, 20);
-h_rejects!(c20_na_rejects_v_stack_2x2_2x1, Bk, v_stack, 2, 2, 2, 1, 20);
 h_rejects!(c20_na_rejects_reshape_2x3_to_2x2, Bk, reshape, 2, 3, 2, 2, 20);
 h_rejects!(c20_na_rejects_reshape_2x3_to_4x2, Bk, reshape, 2, 3, 4, 2, 20);
 
-
-// TEMP-EXPERIMENT
-#[kani::proof]
-#[kani::unwind(20)]
-fn c20_na_tmp_hstack_only() {
-    let x: f64 = kani::any();
-    let y: f64 = kani::any();
-    let a: Bk = BaseMatrix::fill(1, 1, x);
-    let b: Bk = BaseMatrix::fill(1, 1, y);
-    let s: Bk = BaseMatrix::h_stack(&a, &b);
-    assert!(BaseMatrix::get(&s, 0, 1).to_bits() == y.to_bits(), "tmp");
-    kani::cover!(BaseMatrix::shape(&s) == (1, 2));
-}
-#[kani::proof]
-#[kani::unwind(20)]
-fn c20_na_tmp_from_columns_array() {
-    let x: f64 = kani::any();
-    let y: f64 = kani::any();
-    let a: Bk = BaseMatrix::fill(1, 1, x);
-    let b: Bk = BaseMatrix::fill(1, 1, y);
-    let s: Bk = nalgebra::DMatrix::from_columns(&[a.column(0), b.column(0)]);
-    assert!(BaseMatrix::get(&s, 0, 1).to_bits() == y.to_bits(), "tmp");
-    kani::cover!(BaseMatrix::shape(&s) == (1, 2));
-}
-#[kani::proof]
-#[kani::unwind(20)]
-fn c20_na_tmp_vec_of_columns() {
-    let x: f64 = kani::any();
-    let a: Bk = BaseMatrix::fill(1, 1, x);
-    let mut columns = Vec::new();
-    columns.push(a.column(0));
-    assert!(columns[0][0].to_bits() == x.to_bits(), "tmp");
-    kani::cover!(columns.len() == 1);
-}
